@@ -129,9 +129,14 @@ class SimRLock:
         if self.owner is not None and not blocking:
             return False
         self.s.yield_point()
-        self.s.block_until(lambda: self.owner is None, None if timeout in (-1, None) else timeout, "lock")
-        if self.owner is not None:
-            return False
+        tmo = None if timeout in (-1, None) else timeout
+        while True:
+            # (block_until may hand the baton on once more after the condition became true: re-check on return)
+            self.s.block_until(lambda: self.owner is None, tmo, "lock")
+            if self.owner is None:
+                break
+            if tmo is not None:
+                return False
         self.owner = self.s.cur
         self.count = 1
         return True
@@ -168,10 +173,12 @@ class SimQueue:
             if not self.items:
                 raise self.s.Empty()
             return self.items.pop(0)
-        self.s.block_until(lambda: bool(self.items), timeout, "queue")
-        if not self.items:
-            raise self.s.Empty()
-        return self.items.pop(0)
+        while True:
+            self.s.block_until(lambda: bool(self.items), timeout, "queue")
+            if self.items:
+                return self.items.pop(0)
+            if timeout is not None:
+                raise self.s.Empty()
 
     def empty(self):
         return not self.items
